@@ -177,13 +177,14 @@ def gen_matrix_graph(rng, cap=1500):
                             M[a][b] = rng.randrange(mod)
                         mats.append(M)
             central = [rng.randrange(mod) for _ in range(n * m)]
-        elif r < 0.78:
+        elif r < 0.82:
             # finite-order integer matrices with entries -1, 0, 1 under moduli at every threshold where a float / narrow-integer shortcut
             # stops being exact; residues m-1, m-2 in generators AND states, so that sums of several near-m^2 products occur
             import math as _m
-            mod = rng.choice([2**24 - 3, 2**24 + 1, 2**26 - 5, 2**26, 6 * 10**7, 94906266, 94906267, int(_m.isqrt(2**53 // 2)) - 1, int(_m.isqrt(2**53 // 3)) + 2,
-                              10**8 + 7, 2**30 + 3, 2**31 - 1, 2**31])
-            base2 = [[[-1, -1], [1, 0]], [[0, 1], [1, 0]], [[0, -1], [1, 0]], [[1, 1], [-1, 0]], [[-1, 0], [0, -1]], [[0, -1], [-1, 0]]]
+            mod = rng.choice([2**24 - 3, 2**24 + 1, 2**26 - 5, 2**26, 6 * 10**7, 8 * 10**7, 9 * 10**7, 94906266, 94906266, 94906267, int(_m.isqrt(2**53 // 2)) + 3,
+                              int(_m.isqrt(2**53 // 3)) + 2, 10**8 + 7, 2**30 + 3, 2**31 - 1, 2**31])
+            base2 = [[[-1, -1], [1, 0]], [[0, 1], [-1, -1]], [[-1, -1], [0, 1]], [[1, 0], [-1, -1]], [[-1, -1], [1, 0]], [[0, 1], [1, 0]], [[0, -1], [1, 0]],
+                     [[1, 1], [-1, 0]], [[-1, 0], [0, -1]], [[0, -1], [-1, 0]]]          # finite order; several have two entries -1 in one row
             n = rng.choice([2, 2, 3])
             k = rng.randint(1, 3)
             mats = []
@@ -202,8 +203,8 @@ def gen_matrix_graph(rng, cap=1500):
                     M[other][other] = rng.choice([1, -1])
                 mats.append([[v % mod for v in row] for row in M])
             m = rng.choice([1, 1, 2])
-            central = [rng.choice([mod - 1, mod - 2, 1, 2, rng.randrange(mod)]) for _ in range(n * m)]
-        elif r < 0.85:
+            central = [rng.choice([mod - 1, mod - 2, mod - 3, mod - 1, 2, rng.randrange(mod)]) for _ in range(n * m)]
+        elif r < 0.88:
             mod = rng.choice([2**31 - 1, 2**31])
             k = rng.randint(1, 2)
             mats = []
@@ -333,6 +334,40 @@ def gen_label_boundary(rng, cap=1500):
     return gen_perm_graph(rng, cap)
 
 
+def gen_overflow_matrix_graph(rng, cap=1500):
+    """Matrix graphs built so that an exact dot product exceeds 2^53 (and, for the largest moduli, 2^63 before reduction): a modulus just
+    below / above sqrt(2^53/n) ... sqrt(2^63/n), a finite-order generator with a row of several -1 (= m-1), states made of m-1, m-2, m-3."""
+    import math as _m
+    for _ in range(200):
+        n = rng.choice([2, 2, 3])
+        window = [int(_m.isqrt(2**53 // n)) + rng.randint(1, 10**6), 8 * 10**7, 9 * 10**7, 94906266, 94906265, 94906266 - rng.randint(0, 40), 2**26 + rng.randint(0, 5),
+                  int(_m.isqrt(2**63 // n)) - rng.randint(1, 9), 2**31 - 1, 2**31]
+        mod = rng.choice(window[:7] if rng.random() < 0.65 else window[7:])
+        A = [[-1, -1], [1, 0]]
+        others = [[[0, 1], [-1, -1]], [[-1, -1], [0, 1]], [[1, 0], [-1, -1]], [[0, 1], [1, 0]], [[0, -1], [1, 0]], [[-1, 0], [0, -1]]]
+        base = [A] + [rng.choice(others) for _ in range(rng.randint(0, 2))]
+        mats = []
+        for B in base:
+            if n == 2:
+                M = [list(r_) for r_ in B]
+            else:
+                M = [[-1, -1, -1], [1, 0, 0], [0, 1, 0]] if B is A and rng.random() < 0.5 else [[B[0][0], B[0][1], 0], [B[1][0], B[1][1], 0], [0, 0, rng.choice([1, -1])]]
+            mats.append([[v % mod for v in row] for row in M])
+        m = rng.choice([1, 2])
+        central = [mod - rng.choice([1, 2, 3]) for _ in range(n * m)]
+        gd = {"kind": "matrix", "mats": mats, "modulo": mod, "n": n, "m": m, "central": central}
+        r = ref_bfs(gd, [central], cap)
+        if r is None:
+            continue
+        # keep the graph only when some reachable (state, generator) pair has an exact row sum that float64 cannot represent or that leaves int64
+        cols = [[list(s[i * m + j] for i in range(n)) for j in range(m)] for layer in r[0] for s in layer]
+        def _inexact(x):
+            return x >= 2**63 or (x >= 2**53 and int(float(x)) != x)
+        if any(_inexact(sum(a * b for a, b in zip(row, col))) for M in mats for row in M for cs in cols for col in cs):
+            return gd
+    return gen_matrix_graph(rng, cap)
+
+
 def gen_graph(rng, cap=1500):
     """Mostly graphs with a non-trivial orbit (>= 12 vertices, >= 4 layers); a quarter are unconstrained (tiny orbits included)."""
     want_big = rng.random() < 0.75
@@ -359,6 +394,28 @@ def gen_graph(rng, cap=1500):
         if best is None or len(dist) > best[0]:
             best = (len(dist), gd)
     return best[1]
+
+
+CONTAINERS = {"np.int8": 7, "np.uint8": 8, "np.int16": 15, "np.int32": 31, "np.int64": 63, "torch.uint8": 8, "torch.int16": 15, "torch.int32": 31, "torch.int64": 63}
+
+
+def pick_container(rng, values, p_list=0.6):
+    """Name of a container in which the (non-negative) values fit: 'list', 'np.<dtype>' or 'torch.<dtype>' (C13 quantifies over them; other checks sample them)."""
+    if rng.random() < p_list:
+        return "list"
+    mx, mn = max(values, default=0), min(values, default=0)
+    ok = sorted(k for k, b in CONTAINERS.items() if mx < 2**b and (mn >= 0 or ("uint" not in k and -mn <= 2**b)))
+    return rng.choice(ok) if ok else "list"
+
+
+def in_container(name, states):
+    """`states` (nested lists) in the named container."""
+    if name == "list" or name is None:
+        return states
+    import numpy as np
+    import torch
+    lib, dt = name.split(".")
+    return np.array(states, dtype=getattr(np, dt)) if lib == "np" else torch.tensor(states, dtype=getattr(torch, dt))
 
 
 def gen_starts(rng, gd, dist):
